@@ -152,7 +152,7 @@ from . import _cim_xml
 from .config import DEFAULT_ITER_MAXOBJECTCOUNT, \
     AUTO_GENERATE_SFCB_UEP_HEADER, SEND_VALUE_NULL
 from ._cim_constants import DEFAULT_NAMESPACE, CIM_ERR_NOT_SUPPORTED, \
-    CIM_ERR_FAILED, DEFAULT_TIMEOUT
+    CIM_ERR_FAILED, CIM_ERR_INVALID_ENUMERATION_CONTEXT, DEFAULT_TIMEOUT
 from ._cim_types import CIMType, CIMDateTime, atomic_to_cim_xml
 from ._nocasedict import NocaseDict
 from ._cim_obj import CIMInstance, CIMInstanceName, CIMClass, CIMClassName, \
@@ -4770,6 +4770,24 @@ class WBEMConnection:  # pylint: disable=too-many-instance-attributes
             if self._operation_recorders:
                 self.operation_recorder_stage_result(instances, exc)
 
+    def _iter_close_enumeration(self, context):
+        """
+        Close the enumeration session of an Iter...() method that ends before
+        the session is exhausted.
+
+        If the WBEM server reports that the enumeration context does not exist
+        (any more), the session is already closed; that is the case when this
+        cleanup runs because a pull operation failed, since the server closes
+        the session after a failed pull operation unless ContinueOnError was
+        requested. That status is ignored so that it does not replace the
+        exception that is being raised.
+        """
+        try:
+            self.CloseEnumeration(context)
+        except CIMError as ce:
+            if ce.status_code != CIM_ERR_INVALID_ENUMERATION_CONTEXT:
+                raise
+
     def IterEnumerateInstances(self, ClassName, namespace=None,
                                LocalOnly=None,
                                DeepInheritance=None, IncludeQualifiers=None,
@@ -5105,7 +5123,7 @@ class WBEMConnection:  # pylint: disable=too-many-instance-attributes
                 # Cleanup only required if the pull context is open and not
                 # complete
                 if pull_result is not None and not pull_result.eos:
-                    self.CloseEnumeration(pull_result.context)
+                    self._iter_close_enumeration(pull_result.context)
                     pull_result = None
 
         # Alternate request if Pull not implemented. This does not allow
@@ -5396,7 +5414,7 @@ class WBEMConnection:  # pylint: disable=too-many-instance-attributes
                 # Cleanup only required if the pull context is open and not
                 # complete
                 if pull_result is not None and not pull_result.eos:
-                    self.CloseEnumeration(pull_result.context)
+                    self._iter_close_enumeration(pull_result.context)
                     pull_result = None
 
         # Alternate request if Pull not implemented. This does not allow
@@ -5742,7 +5760,7 @@ class WBEMConnection:  # pylint: disable=too-many-instance-attributes
                 # Cleanup only required if the pull context is open and not
                 # complete
                 if pull_result is not None and not pull_result.eos:
-                    self.CloseEnumeration(pull_result.context)
+                    self._iter_close_enumeration(pull_result.context)
                     pull_result = None
 
         # Alternate request if Pull not implemented. This does not allow
@@ -6028,7 +6046,7 @@ class WBEMConnection:  # pylint: disable=too-many-instance-attributes
                 # Cleanup only required if the pull context is open and not
                 # complete
                 if pull_result is not None and not pull_result.eos:
-                    self.CloseEnumeration(pull_result.context)
+                    self._iter_close_enumeration(pull_result.context)
                     pull_result = None
 
         # Alternate request if Pull not implemented. This does not allow
@@ -6334,7 +6352,7 @@ class WBEMConnection:  # pylint: disable=too-many-instance-attributes
                 # Cleanup only required if the pull context is open and not
                 # complete
                 if pull_result is not None and not pull_result.eos:
-                    self.CloseEnumeration(pull_result.context)
+                    self._iter_close_enumeration(pull_result.context)
                     pull_result = None
 
         # Alternate request if Pull not implemented. This does not allow
@@ -6599,7 +6617,7 @@ class WBEMConnection:  # pylint: disable=too-many-instance-attributes
                 # Cleanup only required if the pull context is open and not
                 # complete
                 if pull_result is not None and not pull_result.eos:
-                    self.CloseEnumeration(pull_result.context)
+                    self._iter_close_enumeration(pull_result.context)
                     pull_result = None
 
         # Alternate request if Pull not implemented. This does not allow
@@ -6871,7 +6889,7 @@ class WBEMConnection:  # pylint: disable=too-many-instance-attributes
                 # Cleanup only required if the pull context is open and not
                 # complete
                 if pull_result is not None and not pull_result.eos:
-                    self.CloseEnumeration(pull_result.context)
+                    self._iter_close_enumeration(pull_result.context)
                     pull_result = None
 
         # Alternate request if Pull not implemented. This does not allow
